@@ -107,7 +107,7 @@ def write_cfg(name, spec, constants, invariants=(), properties=(), view=None, co
 
 
 def tlc(module, cfg_path, name, workers=8, env=None, timeout=1800, coverage=True, simulate=None,
-        trace_mode=False, seed=None, xmx=None, spec_dir=None):
+        trace_mode=False, seed=None, xmx=None, spec_dir=None, depth=None):
     """Run TLC; never raises on an invariant violation (that is data), raises ToolError on tool errors."""
     os.makedirs(WORK, exist_ok=True)
     meta = os.path.join(WORK, "md_" + name)
@@ -118,6 +118,8 @@ def tlc(module, cfg_path, name, workers=8, env=None, timeout=1800, coverage=True
         cmd += ["-coverage", "1"]
     if simulate:
         cmd += ["-simulate", simulate]
+        if depth:
+            cmd += ["-depth", str(depth)]
     if seed is not None:
         cmd += ["-seed", str(seed)]
     cmd.append(os.path.join(spec_dir or SPEC, module + ".tla"))
